@@ -428,7 +428,7 @@ mmap (void *addr, size_t len, int prot, int flags, int fd, off_t off)
     {
       struct led *l = nled < MAXLED ? &led[nled++] : &led[MAXLED - 1];
       memset (l, 0, sizeof *l);
-      l->op = 'M'; l->size = len;
+      l->op = (flags & 0x40000 /* MAP_HUGETLB */) ? 'H' : 'M'; l->size = len;
       if (should_fail ())
         {
           l->failed = 1;
@@ -465,8 +465,28 @@ munmap (void *addr, size_t len)
         }
       if (scan_region (addr, len))
         leak_unmap++;
-      if (!live_del (addr, 1))
-        bad_free++;
+      /* byte-range accounting: releasing only part of a mapping leaves the rest live */
+      {
+        int found = 0;
+        for (int i = 0; i < MAXLIVE; i++)
+          if (livetab[i].p && livetab[i].kind == 1 && (char *) addr >= (char *) livetab[i].p
+              && (char *) addr + len <= (char *) livetab[i].p + livetab[i].size)
+            {
+              found = 1;
+              if (addr == livetab[i].p && len == livetab[i].size)
+                livetab[i].p = 0;
+              else if (addr == livetab[i].p)
+                {
+                  livetab[i].p = (char *) addr + len;
+                  livetab[i].size -= len;
+                }
+              else
+                livetab[i].size = (size_t) ((char *) addr - (char *) livetab[i].p);   /* tail cut (middle holes not tracked) */
+              break;
+            }
+        if (!found)
+          bad_free++;
+      }
     }
   return (int) syscall (11 /* SYS_munmap */, addr, len);
 }
